@@ -51,8 +51,9 @@ META = dict(
         quick=("classes of n <= 3 entries.  dict (every insertion order), arith (3 spellings x every permutation), "
                "struct flat x every permutation: complete.  struct groupings: n <= 2 all; n = 3 all 15 per permutation "
                "for classes with all counts 1, the 7 single-level ones for the others.  parse: n <= 2 every permutation "
-               "x every grouping; n = 3: every class once written in the order of its Hill form (check e), classes "
-               "with all counts 1 also every permutation flat and every grouping of the first permutation"),
+               "x every grouping; n = 3: classes with all counts 1 every permutation flat and every grouping of the first "
+               "permutation; check (e) (the string written in the order of the Hill form) for every class of n <= 2 and "
+               "for the n = 3 classes with counts all 1 or {2, 1, 0.5}"),
         thorough=("classes of n <= 4 entries.  n <= 3: struct (every permutation x all groupings), dict, arith complete; "
                   "parse: n <= 2 complete, n = 3 every permutation flat for every class, every permutation x every "
                   "grouping for all-ones classes, every class once in Hill order.  n = 4: struct flat x every "
@@ -196,8 +197,9 @@ def plan(n, tier, entries):
     if n <= 2:
         return dict(group="all", arith=True, parse_flat=True, parse_group="all", parse_hill=True)
     if n == 3 and quick:
+        distinct = sorted(c for t, c in entries) == [0.5, 1, 2]
         return dict(group="all" if ones else "single", arith=True, parse_flat=ones,
-                    parse_group="first" if ones else None, parse_hill=True)
+                    parse_group="first" if ones else None, parse_hill=ones or distinct)
     if n == 3:
         return dict(group="all", arith=True, parse_flat=True, parse_group="all" if ones else None, parse_hill=True)
     return dict(group="all" if ones else "flat", arith=ones or mixed, parse_flat=ones,
